@@ -56,18 +56,36 @@ def run_c06(chk):
     bad, fails = [], []
     n = chk.n(900, 16000)
     nlex = 0
+    prev = None
     for it in range(n):
         method = rng.choice(METHODS) if it % 8 == 0 else rng.choice(METHODS[:3])
-        try:
-            d, lex = make_lexstat(rng, need_scorer=(method == 'lexstat'))
-        except Exception as ex:  # noqa
-            chk.hist['lexstat-init-raised:' + type(ex).__name__] += 1
-            continue
+        again = None
+        if prev is not None and rng.random() < 0.3:
+            # a further analysis on the object of the previous call (other linkage, often the same method and threshold): every call has
+            # to give the partition of ITS linkage, whatever was computed on the object before
+            d, lex, pm, pt, plink, scored = prev
+            if rng.random() < 0.7:
+                method, again = pm, pt
+            elif method == 'lexstat' and not scored:
+                method = pm
+            chk.hist['LexStat.cluster called again on the same object'] += 1
+        else:
+            try:
+                d, lex = make_lexstat(rng, need_scorer=(method == 'lexstat'))
+            except Exception as ex:  # noqa
+                chk.hist['lexstat-init-raised:' + type(ex).__name__] += 1
+                prev = None
+                continue
+            plink = None
+            scored = (method == 'lexstat')
         nlex += 1
-        link = rng.choice(cl.LINKS)
+        link = rng.choice([x for x in cl.LINKS if x != plink])
         mats = matrices_of(lex, method)
         vals = sorted(set(v for _, _, m in mats for r in m for v in r))
         t = rng.choice(vals + [0.3, 0.5, 0.45, 0.75]) if method != 'turchin' else rng.choice([0.0, 0.5, 0.9])
+        if again is not None:
+            t = again
+        prev = (d, lex, method, t, link, scored)
         ref = 'customid'
         used = []
         orig_gm = lex._get_matrices
